@@ -12,7 +12,7 @@ for pid in ids:
     if m is None:
         na.append({"property_id": pid, "reason": checkdefs.NOT_APPLICABLE.get(pid, "check not built yet")})
         continue
-    checks.append({
+    c = {
         "property_id": pid,
         "quick_cmd": "./check %s quick" % pid,
         "thorough_cmd": "./check %s thorough" % pid,
@@ -23,7 +23,11 @@ for pid in ids:
         "level_note": m["note"],
         "technique": m.get("technique", "bounded symbolic execution of the go/ssa form of /repo's current source into SMT-LIB2 bit-vector queries decided by z3; "
                            "counterexamples replayed natively against the real build"),
-    })
+    }
+    if pid not in checkdefs.THOROUGH_VALIDATED:
+        # a thorough bound is registered only after it ran clean on the unchanged tree
+        del c["thorough_cmd"]
+    checks.append(c)
 man = {
     "version": 1,
     "setup_cmd": "cd /verif/engine && GOFLAGS=-mod=mod GOPROXY=off GOSUMDB=off GOTOOLCHAIN=local go build -o /verif/bin/gosymx .",
